@@ -7,7 +7,7 @@
    list — no bound on the size of the graph. *)
 From Coq Require Import List ZArith Bool Lia Permutation.
 Import ListNotations.
-From V Require Import Valid.Hier Valid.Walk Valid.FlatRegion Valid.Cons Model.Graph Model.Edits.
+From V Require Import Valid.Hier Valid.Walk Valid.FlatRegion Valid.Cons Valid.Wf Model.Graph Model.Edits.
 Local Open Scope Z_scope.
 
 Definition kind_of (b : eblk) : nkind :=
@@ -470,6 +470,96 @@ Proof.
     rewrite (cl_fresh _ _ _ Hcl b' Hfb) in Hk. unfold kind_of in Hk. cbn in Hk. discriminate.
 Qed.
 
+(* C04 for the first stage: a flat hierarchy - every block a child of the top region, every target a sibling *)
+Lemma node_in_h n : In n h -> n = mkNode top 0 [] [] (KRegion 1 0 0 (ekeys g') 0 true) \/
+  exists x b', In (x, b') g' /\ n = node_of top (x, b').
+Proof.
+  unfold h, ehier. intros [<-|Hn]; [left; reflexivity|]. right.
+  apply in_map_iff in Hn as [[x b'] [<- Hxb]]. exists x, b'. auto.
+Qed.
+
+Lemma target_in_g' x b' t : In (x, b') g' -> In t (e_jt b' ++ e_be b') -> In t (ekeys g').
+Proof.
+  intros Hxb Ht. destruct Hin as [Hnd Horig Hclosed Htop Hfresh].
+  assert (Hfx : efind g' x = Some b') by (apply In_efind; [apply (cl_nodup _ _ _ Hcl)|exact Hxb]).
+  assert (Hx' : In x (ekeys g')) by (eapply efind_keys; eauto).
+  apply (cl_keys _ _ _ Hcl) in Hx' as [Hx|[-> Hx]].
+  - destruct (keys_efind g x Hx) as [b Hb].
+    destruct (cl_orig _ _ _ Hcl x b Hb) as [b2 [Hf2 [_ [Hbe Hj]]]]. rewrite Hfx in Hf2. injection Hf2 as <-.
+    rewrite Hbe, app_nil_r in Ht. destruct Hj as [Hj|[_ [Hj Hff]]]; rewrite Hj in Ht.
+    + apply (cl_keys _ _ _ Hcl). left. eapply Hclosed; [apply efind_In; exact Hb|exact Ht].
+    + destruct Ht as [<-|[]]. eapply efind_keys; eauto.
+  - rewrite (cl_fresh _ _ _ Hcl b' Hfx) in Ht. destruct Ht.
+Qed.
+
+Theorem closed_wf : WfHier h.
+Proof.
+  assert (Ht0 : top <> 0) by (destruct Hin as [_ _ _ [_ [H _]] _]; exact H).
+  constructor.
+  - exact nodup_names_h.
+  - eexists. split; [exact top_region_h|reflexivity].
+  - intros n Hn Hp. destruct (node_in_h n Hn) as [->|[x [b' [Hxb ->]]]]; [cbn in Hp; congruence|].
+    cbn [n_parent node_of]. do 7 eexists. split; [unfold h; apply find_ehier_top|]. split; [reflexivity|].
+    cbn. unfold ekeys. apply in_map_iff. exists (x, b'). auto.
+  - intros p rk hd ex ch pd ok Hp Hk. destruct (node_in_h p Hp) as [->|[x [b' [Hxb ->]]]].
+    + cbn in Hk. injection Hk as <- <- <- <- <- <-. split; [apply (cl_nodup _ _ _ Hcl)|].
+      intros c Hc. destruct (find_h_g' c Hc) as [bc [_ Hfc]]. eexists. split; [exact Hfc|reflexivity].
+    + exfalso. unfold node_of, kind_of in Hk. cbn in Hk. destruct (e_kind b') as [c|a|c v t]; [destruct (Z.eqb c 100)| |]; discriminate.
+  - intros p rk hd ex ch pd ok Hp Hk Hpar. destruct (node_in_h p Hp) as [->|[x [b' [Hxb ->]]]]; [cbn in Hpar; congruence|].
+    exfalso. unfold node_of, kind_of in Hk. cbn in Hk. destruct (e_kind b') as [c|a|c v t]; [destruct (Z.eqb c 100)| |]; discriminate.
+  - intros n t Hn Hp Ht. destruct (node_in_h n Hn) as [->|[x [b' [Hxb ->]]]]; [cbn in Hp; congruence|].
+    cbn [n_name node_of n_jt n_be fst snd] in *.
+    assert (Hx' : In x (ekeys g')) by (unfold ekeys; apply in_map_iff; exists (x, b'); auto).
+    destruct (find_h_g' x Hx') as [b2 [Hf2 Hfx]].
+    eapply Vis_sib; [exact Hfx|cbn [n_parent node_of]; unfold h; apply find_ehier_top|reflexivity|].
+    eapply target_in_g'; eauto.
+  - intros p rk hd ex ch pd ok Hp Hk Hpar. destruct (node_in_h p Hp) as [->|[x [b' [Hxb ->]]]]; [cbn in Hpar; congruence|].
+    exfalso. unfold node_of, kind_of in Hk. cbn in Hk. destruct (e_kind b') as [c|a|c v t]; [destruct (Z.eqb c 100)| |]; discriminate.
+  - intros p rk hd ex ch pd ok Hp Hk Hpar. destruct (node_in_h p Hp) as [->|[x [b' [Hxb ->]]]]; [cbn in Hpar; congruence|].
+    exfalso. unfold node_of, kind_of in Hk. cbn in Hk. destruct (e_kind b') as [c|a|c v t]; [destruct (Z.eqb c 100)| |]; discriminate.
+Qed.
+
+(* C06 for the first stage: no branching on control variables at all; every decision list can be walked *)
+Lemma srun_orig_strict x b e : efind g x = Some b -> SRun h rs true x e (Reached x e).
+Proof.
+  intros Hf. destruct (node_of_orig x b Hf) as [jt [Hfh _]]. eapply SR_orig; [exact Hfh|reflexivity].
+Qed.
+
+Lemma ctrace_all : forall ds x b e, efind g x = Some b -> CTrace h rs true x e ds.
+Proof.
+  induction ds as [|d ds IH]; intros x b e Hf; [constructor|].
+  destruct (node_of_orig x b Hf) as [jt [Hfh Hjt]].
+  assert (Hj : jt_of h x = Some jt) by (unfold jt_of; rewrite Hfh; reflexivity).
+  destruct (nth_error jt d) as [t|] eqn:En; [|eapply CT_bad; eauto].
+  destruct Hjt as [->|[_ [-> Hff]]].
+  - destruct (closed_target x b t Hf) as [bt Hbt]; [eapply nth_error_In; eauto|].
+    eapply CT_step; [exact Hj|exact En| | |].
+    + unfold rs, resolve_flat. apply (enter_orig t bt Hbt).
+    + apply (srun_orig_strict t bt e Hbt).
+    + apply (IH t bt e Hbt).
+  - destruct d as [|d]; [|destruct d; discriminate]. injection En as <-.
+    eapply CT_stop; [exact Hj|reflexivity| |].
+    + unfold rs, resolve_flat. cbn [enter_flat]. rewrite Hff. reflexivity.
+    + eapply SR_stop; [exact Hff|reflexivity|reflexivity].
+Qed.
+
+Theorem closed_ctrl : CtrlSafe h.
+Proof.
+  destruct en_in_g as [ben [Hfen _]].
+  split; [exact nodup_names_h|]. split.
+  - intros n c v tbl Hn Hk. exfalso. destruct (node_in_h n Hn) as [->|[x [b' [Hxb ->]]]]; [discriminate|].
+    assert (Hfx : efind g' x = Some b') by (apply In_efind; [apply (cl_nodup _ _ _ Hcl)|exact Hxb]).
+    assert (Hx' : In x (ekeys g')) by (eapply efind_keys; eauto).
+    unfold node_of, kind_of in Hk. cbn in Hk.
+    apply (cl_keys _ _ _ Hcl) in Hx' as [Hx|[-> Hx]].
+    + destruct (keys_efind g x Hx) as [b Hb]. destruct (cl_orig _ _ _ Hcl x b Hb) as [b2 [Hf2 [Hk2 _]]].
+      rewrite Hfx in Hf2. injection Hf2 as <-. rewrite Hk2 in Hk. discriminate.
+    + rewrite (cl_fresh _ _ _ Hcl b' Hfx) in Hk. discriminate.
+  - exists en. split.
+    + unfold start_of. rewrite top_region_h. cbn [n_kind]. rewrite graph_head_h. apply (enter_orig en ben Hfen).
+    + intros ds. apply (ctrace_all ds en ben [] Hfen).
+Qed.
+
 End WalkClosed.
 
 (* ---------- C01, first stage, for all graphs ---------- *)
@@ -485,4 +575,16 @@ Theorem join_returns_conserved g top fresh en g' :
   Conserved (og g) (ehier top g').
 Proof.
   intros Hi He Hj. apply (closed_conserved g g' top fresh Hi (join_returns_closed g top fresh g' Hi Hj)).
+Qed.
+
+Theorem join_returns_wf g top fresh en g' :
+  Input g top fresh -> oentry (og g) = Some en -> join_returns g fresh 3 = Ok g' -> WfHier (ehier top g').
+Proof.
+  intros Hi He Hj. apply (closed_wf g g' top fresh Hi (join_returns_closed g top fresh g' Hi Hj)).
+Qed.
+
+Theorem join_returns_ctrl g top fresh en g' :
+  Input g top fresh -> oentry (og g) = Some en -> join_returns g fresh 3 = Ok g' -> CtrlSafe (ehier top g').
+Proof.
+  intros Hi He Hj. apply (closed_ctrl g g' top fresh en Hi (join_returns_closed g top fresh g' Hi Hj) He).
 Qed.
